@@ -473,8 +473,41 @@ pub fn comparator_axioms(ctx: &Ctx, tier: Tier) -> u64 {
             Err(e) => ctx.machinery_error(format!("comparator universe: SW-CALPRM-AXIS-SET: {e}")),
         }
     }
+    // (6) siblings that differ only in an attribute value, their own (SDG GID, L-4 L) or a descendant's (SDG/SD GID)
+    let mut attrs_only: Vec<(String, Element)> = vec![];
+    {
+        let adm = host.create_named_sub_element(ElementName::System, "sysadm").and_then(|e| e.create_sub_element(ElementName::AdminData));
+        match adm.and_then(|a| a.create_sub_element(ElementName::Sdgs)) {
+            Ok(sdgs) => {
+                for gid in ["Zeta", "Alpha", "a2", "a10", ""] {
+                    if let Ok(sdg) = sdgs.create_sub_element(ElementName::Sdg) {
+                        let _ = sdg.set_attribute_string(AttributeName::Gid, gid);
+                        let _ = sdg.create_sub_element(ElementName::Sd).and_then(|sd| sd.set_character_data("same"));
+                        attrs_only.push((format!("SDG GID={gid:?} same content"), sdg));
+                    }
+                }
+                for gid in ["k2", "k1"] {
+                    if let Ok(sdg) = sdgs.create_sub_element(ElementName::Sdg) {
+                        let _ = sdg.set_attribute_string(AttributeName::Gid, "same");
+                        let _ = sdg.create_sub_element(ElementName::Sd).and_then(|sd| sd.set_attribute_string(AttributeName::Gid, gid).and_then(|_| sd.set_character_data("same")));
+                        attrs_only.push((format!("SDG GID=same with SD GID={gid:?}"), sdg));
+                    }
+                }
+            }
+            Err(e) => ctx.machinery_error(format!("comparator universe: SDGS: {e}")),
+        }
+        if let Ok(ln) = host.create_named_sub_element(ElementName::System, "sysln").and_then(|e| e.create_sub_element(ElementName::LongName)) {
+            for l in [EnumItem::En, EnumItem::De, EnumItem::Fr] {
+                if let Ok(l4) = ln.create_sub_element(ElementName::L4) {
+                    let _ = l4.set_attribute(AttributeName::L, l);
+                    let _ = l4.insert_character_content_item("Gateway", 0);
+                    attrs_only.push((format!("L-4 L={l:?} same text"), l4));
+                }
+            }
+        }
+    }
     let mut evals = 0u64;
-    for (what, uni) in [("names", &universe), ("containers-with-index", &containers), ("parameter-values", &params), ("references", &refs), ("float-content", &floats)] {
+    for (what, uni) in [("names", &universe), ("containers-with-index", &containers), ("parameter-values", &params), ("references", &refs), ("float-content", &floats), ("attributes-only", &attrs_only)] {
         let n = uni.len();
         // the matrix, row by row in parallel (each comparison takes read locks only)
         let rows: Vec<Vec<i8>> = uni
@@ -505,7 +538,7 @@ pub fn comparator_axioms(ctx: &Ctx, tier: Tier) -> u64 {
                 if rows[i][j] != -rows[j][i] {
                     ctx.violation(format!("comparator|{what}|not-antisymmetric"), json!({"kind": "cmp", "a": uni[i].0, "b": uni[j].0, "a_cmp_b": rows[i][j], "b_cmp_a": rows[j][i]}));
                 }
-                if i != j && rows[i][j] == 0 && (what == "names" || what == "float-content") {
+                if i != j && rows[i][j] == 0 && (what == "names" || what == "float-content" || what == "attributes-only") {
                     ctx.violation(format!("comparator|{what}|distinct-keys-compare-equal"), json!({"kind": "cmp", "a": uni[i].0, "b": uni[j].0}));
                 }
             }
